@@ -248,6 +248,51 @@ Module WS.
       destruct (parse_type_def fuel C S frs [] (pascal_s (fr_name f)) (fr_on f) (fr_sel f) false (fr_mixins f) None)
         as [[[o p] k]|m] eqn:E; simpl in H; [|discriminate]. inversion H; subst. eapply ptd_bases; eauto.
   Qed.
+  (* non-vacuity: a schema and an operation that meet the guard, with nested classes and an enum *)
+  Definition exS : schema :=
+    {| s_types := [("String", DScalar); ("Int", DScalar); ("Color", DEnum ["RED"]);
+                   ("A", DObject [] [("x", TNamed "Int"); ("c", TNamed "Color"); ("next", TNamed "A")]);
+                   ("Query", DObject [] [("a", TNamed "A"); ("s", TNamed "String")])];
+       s_query := Some "Query"; s_mutation := None; s_subscription := None |}.
+  Definition exSels : list sel :=
+    [SField None "a" false [] (Some [SField None "x" false [] None; SField None "c" false [] None;
+                                     SField None "next" false [] (Some [SField None "c" false [] None])]);
+     SField None "s" false [] None].
+  Ltac ins := repeat match goal with
+    | H : In _ (_ :: _) |- _ => destruct H as [H|H]
+    | H : In _ [] |- _ => destruct H
+    | H : SField _ _ _ _ _ = SField _ _ _ _ _ |- _ => inversion H; subst; clear H
+    | H : _ = _ |- _ => discriminate H
+    end.
+  Ltac leafcase H := unfold schema_field_type, lookup_type in H; simpl in H;
+    repeat match type of H with context [String.eqb ?a ?b] => destruct (String.eqb a b); simpl in H end;
+    try discriminate; inversion H; subst; reflexivity.
+  Ltac occinv H := match goal with O' : occ _ _ _ None |- _ => inversion O'; subst; clear O'; ins; try (leafcase H) end.
+
+  Example C04_well_scoped_guard_satisfiable :
+    leaf_disc exS [] exSels /\
+    option_map (map c_name) (match result_classes 10 {| cf_snake := true; cf_scalars := [] |} exS []
+                                   (DOp "query" "Q" [] exSels) with Ok l => Some l | Err _ => None end)
+      = Some ["Q"; "QA"; "QANext"].
+  Proof.
+    split; [| vm_compute; reflexivity].
+    intros n [->|O] tn t H; [leafcase H|]. unfold exSels in O.
+    occinv H. all: try occinv H. all: try occinv H. all: try occinv H.
+  Qed.
+
+  (* why the guard is there: without it (an object-typed field selected without sub-selection, which GraphQL
+     validation rejects) the annotation names a class nobody generates *)
+  Definition C04_well_scoped_classes_full : Prop := forall fuel C S frs d cls,
+    result_classes fuel C S frs d = Ok cls ->
+    forall c pf n, In c cls -> In pf (c_fields c) -> In n (ann_classes (p_ann pf)) -> In n (map c_name cls).
+
+  Theorem C04_well_scoped_classes_refuted : ~ C04_well_scoped_classes_full.
+  Proof.
+    intro H.
+    specialize (H 10 {| cf_snake := true; cf_scalars := [] |} exS [] (DOp "query" "Q" [] [SField None "a" false [] None])
+                  _ eq_refl _ _ "QA" (or_introl eq_refl) (or_introl eq_refl) (or_introl eq_refl)).
+    simpl in H. destruct H as [H|[]]. discriminate H.
+  Qed.
 End WS.
 Print Assumptions WS.C04_well_scoped_classes_partial.
 Print Assumptions WS.C04_well_scoped_enums.
